@@ -170,6 +170,34 @@ def run(ctx):
                 dec_ops.append(("jwe.dec", {"jwe": tok, "jwk": twin, "rand": "00" * 600, "_expect_fail": True, "_why": why + " a key of the same kind and size"}))
     cmp(ctx, dec_ops, p_dec)
     ctx.count("tokens", len(dec_ops) // 2)
+    # the combined streaming entry points (jose_jwe_enc_io / jose_jwe_dec_io): same object as the one-shot call for the
+    # same tape, for every chunking of the plaintext; every chunking of the ciphertext bytes decrypts to the plaintext
+    io_ops = []
+    sel = [x for x in zip(ops, real) if x[1].get("ok")]
+    for (op, a), r in sel[:: max(1, len(sel) // (40 if quick else 400))]:
+        pt = bytes.fromhex(a["pt"])
+        for feeds in ([pt.hex()], chunks(rng, pt), [""] + chunks(rng, pt) + [""]):
+            b = {k: v for k, v in a.items() if k != "pt"}
+            io_ops.append(("jwe.enc_io", dict(b, feeds=feeds, _oneshot=r, _expect_ok=True)))
+        ct = G.b64d(r["jwe"]["ciphertext"])
+        det = {k: v for k, v in r["jwe"].items() if k != "ciphertext"}
+        for feeds in ([ct.hex()], chunks(rng, ct), [ct[:1].hex(), ct[1:].hex(), ""]):
+            io_ops.append(("jwe.dec_io", {"jwe": det, "jwk": a["jwk"], "feeds": feeds, "rand": "00" * 600, "_pt": a["pt"], "_why": "dec_io of a %s/%s token" % (a["_wrap"], a["_enc"])}))
+        io_ops.append(("jwe.dec_io", {"jwe": dict(det, tag=G.b64u(bytes(16))), "jwk": a["jwk"], "feeds": [ct.hex()], "rand": "00" * 600, "_expect_fail": True, "_why": "dec_io, tag replaced"}))
+        io_ops.append(("jwe.dec_io", {"jwe": det, "jwk": a["jwk"], "feeds": [ct.hex(), "00"], "rand": "00" * 600, "_expect_fail": True, "_why": "dec_io, one more byte fed"}))
+    def p_io(op, a, real_):
+        if "crash" in real_:
+            return None
+        if op == "jwe.enc_io":
+            if not real_.get("ok"):
+                return ("enc_io:refused", "jose_jwe_enc_io refuses what jose_jwe_enc accepts: %s" % json.dumps(strip(a))[:300])
+            m1, m2 = E.mask(real_["jwe"], a.get("_wrap"), a.get("_zip")), E.mask(a["_oneshot"]["jwe"], a.get("_wrap"), a.get("_zip"))
+            if m1 != m2:
+                return ("enc_io:differs", "jose_jwe_enc_io gives another object than jose_jwe_enc for the same tape: %s vs %s" % (json.dumps(m1)[:200], json.dumps(m2)[:200]))
+            return None
+        return p_dec("jwe.dec", a, real_)
+    cmp(ctx, io_ops, p_io)
+    ctx.count("combined-stream-ops", len(io_ops))
     # encryption to PUBLIC keys (what a sender has), decryption with the private half; content key given without `alg`;
     # `zip` outside the protected header is not honoured (C15) but the token still round-trips
     pub_ops = []
